@@ -165,16 +165,8 @@ impl PartialOrd for Dict {
 
 impl Ord for Dict {
     fn cmp(&self, other: &Self) -> std::cmp::Ordering {
-        if self.is_empty() && other.is_empty() {
-            std::cmp::Ordering::Equal
-        } else {
-            let keys_cmp = self.value.keys().cmp(other.value.keys());
-            if keys_cmp == std::cmp::Ordering::Equal {
-                self.value.values().cmp(other.value.values())
-            } else {
-                keys_cmp
-            }
-        }
+        // Same order as `partial_cmp`: the tag name and value pairs, in key order
+        self.value.cmp(&other.value)
     }
 }
 
